@@ -104,6 +104,31 @@ void random_bytes(void *out, size_t len)
     gcry_randomize(out, len, GCRY_STRONG_RANDOM);
 }
 
+/*
+ * VNC authentication uses the (bit-reversed) password as the DES key as it is,
+ * so keys that DES regards as weak are legitimate here, e.g. the one of the
+ * empty password.  libgcrypt refuses to use them unless told otherwise, and
+ * gcry_cipher_setkey() keeps reporting GPG_ERR_WEAK_KEY even when they are
+ * allowed.
+ */
+static int rfbdes_setkey(gcry_cipher_hd_t des, const unsigned char mungedkey[8])
+{
+    gcry_error_t error;
+
+#if GCRYPT_VERSION_NUMBER >= 0x010a00
+    error = gcry_cipher_ctl(des, GCRYCTL_SET_ALLOW_WEAK_KEY, NULL, 1);
+    if (gcry_err_code(error) != GPG_ERR_NO_ERROR)
+	return 0;
+#endif
+
+    error = gcry_cipher_setkey(des, mungedkey, 8);
+#if GCRYPT_VERSION_NUMBER >= 0x010a00
+    if (gcry_err_code(error) == GPG_ERR_WEAK_KEY)
+	return 1;
+#endif
+    return gcry_err_code(error) == GPG_ERR_NO_ERROR;
+}
+
 int encrypt_rfbdes(void *out, int *out_len, const unsigned char key[8], const void *in, const size_t in_len)
 {
     int result = 0;
@@ -119,8 +144,7 @@ int encrypt_rfbdes(void *out, int *out_len, const unsigned char key[8], const vo
     if (gcry_err_code(error) != GPG_ERR_NO_ERROR)
 	goto out;
 
-    error = gcry_cipher_setkey(des, mungedkey, 8);
-    if (gcry_err_code(error) != GPG_ERR_NO_ERROR)
+    if (!rfbdes_setkey(des, mungedkey))
 	goto out;
 
     error = gcry_cipher_encrypt(des, out, in_len, in, in_len);
@@ -151,8 +175,7 @@ int decrypt_rfbdes(void *out, int *out_len, const unsigned char key[8], const vo
     if (gcry_err_code(error) != GPG_ERR_NO_ERROR)
 	goto out;
 
-    error = gcry_cipher_setkey(des, mungedkey, 8);
-    if (gcry_err_code(error) != GPG_ERR_NO_ERROR)
+    if (!rfbdes_setkey(des, mungedkey))
 	goto out;
 
     error = gcry_cipher_decrypt(des, out, in_len, in, in_len);
